@@ -154,7 +154,10 @@ def regime(rng, cfg, first=False):
         sys['dacr'] = rng.choice([0x55555555, 0xFFFFFFFF, 1, 3, rng.getrandbits(32)])
         sys['prrr'] = rng.getrandbits(32)
         sys['nmrr'] = rng.getrandbits(32)
-        if cfg.get('have_lpae'):
+        # (the emulator's short-descriptor walk reads the 64-bit TTBR storage)
+        sys['ttbr0_64'] = rng.choice([TABLES, TABLES, TABLES | rng.getrandbits(6), 0])
+        sys['ttbr1_64'] = rng.choice([TABLES, DATA, 0])
+        if cfg.get('have_lpae') and (sys['ttbcr'] >> 31):
             # long-descriptor stage 1: TTBR0/1 point either at the short-descriptor words (noise) or at the 1 GiB identity blocks
             sys['ttbr0_64'] = rng.choice([TABLES, TABLES + 0x3000, TABLES + 0x3000])
             sys['ttbr1_64'] = rng.choice([TABLES, TABLES + 0x3000, 0])
